@@ -340,11 +340,12 @@ impl ParserListener for Screen {
                     continue;
                 }
                 let char = line.entry(x).or_insert(default_char.clone()).data.clone();
+                // An orphaned placeholder (the lead half of a wide character was
+                // overwritten) holds no character at all.
                 is_wide_char = char
                     .chars()
                     .next()
-                    .expect("can not read char")
-                    .width()
+                    .and_then(|c| c.width())
                     .is_some_and(|s| s == 2);
                 result.push_str(&char);
             }
